@@ -309,12 +309,18 @@ type Cluster struct {
 	Dir   string
 	Lease *LeaseService
 	Nodes map[string]*CNode
-	mu    sync.Mutex
+	// ClusterID is written into every member's data directory before it first starts, as in a
+	// cluster that has been formed already ("" = let the first primary generate one; members that
+	// never streamed from it can then never become primary, by design of LiteFS).
+	ClusterID string
+	mu        sync.Mutex
 }
 
 // NewCluster creates an empty cluster rooted at dir.
 func NewCluster(dir string) *Cluster {
-	return &Cluster{Dir: dir, Lease: NewLeaseService(), Nodes: map[string]*CNode{}}
+	cl := &Cluster{Dir: dir, Lease: NewLeaseService(), Nodes: map[string]*CNode{}, ClusterID: "LFSC0123456789ABCDEF"}
+	cl.Lease.clusterID = cl.ClusterID
+	return cl
 }
 
 // Start opens (or re-opens, keeping its data directory) the node called name.
@@ -322,6 +328,13 @@ func (cl *Cluster) Start(name string, o ClusterNodeOpts) (*CNode, error) {
 	dir := filepath.Join(cl.Dir, name)
 	if err := os.MkdirAll(dir, 0o777); err != nil {
 		return nil, err
+	}
+	if cl.ClusterID != "" {
+		if _, err := os.Stat(filepath.Join(dir, "clusterid")); os.IsNotExist(err) {
+			if err := os.WriteFile(filepath.Join(dir, "clusterid"), []byte(cl.ClusterID+"\n"), 0o666); err != nil {
+				return nil, err
+			}
+		}
 	}
 	cn := &CNode{Name: name, Client: NewFaultClient(), opts: o, cl: cl}
 	var startErr error
